@@ -643,6 +643,9 @@ def eval_assembly(ctx, exe, mexe, cases, stats):
                 okw = False
                 break
             sw = sum(w)
+            if abs(sw) * 1000 < max(abs(v) for v in w):
+                okw = False               # normalisation by a nearly vanishing sum: not a fair comparison
+                break
             # exact solution rounded to the grid 2^-32 (keeps the model's rationals small; tolerance 1e-7)
             wl.append([Fraction(round(v / sw * (1 << 32)), 1 << 32) for v in w])
         if okw:
@@ -1225,7 +1228,7 @@ def emb_flags(ctx):
 
 def budgets(ctx, factor=1):
     if ctx.quick:
-        return {"exact": 240 * factor, "assembly": 40 * factor, "meta": 400 * factor, "history": 40 * factor,
+        return {"exact": 240 * factor, "assembly": 30 * factor, "meta": 400 * factor, "history": 40 * factor,
                 "nbr": 200 * factor}
     return {"exact": 2000 * factor, "assembly": 300 * factor, "meta": 3000 * factor, "history": 200 * factor,
             "nbr": 2000 * factor}
